@@ -1195,6 +1195,24 @@ impl Transport {
     }
 }
 
+/// Verification hook (only with `--cfg rs_matter_verif`): one round of the
+/// dropped-exchange sweeper without a running transport.
+#[cfg(rs_matter_verif)]
+impl<C: Crypto> TransportRunner<'_, C> {
+    /// Runs `handle_dropped_exchange` once on the (free) TX buffer and discards the
+    /// packet it may have written. Returns `true` when there was nothing to sweep.
+    pub async fn verif_sweep_dropped_once(&self) -> Result<bool, Error> {
+        let mut tx = self
+            .matter
+            .transport
+            .get_if_tx(|packet| packet.buf.is_empty())
+            .await;
+        tx.clear_on_drop(true);
+
+        self.handle_dropped_exchange(&mut tx)
+    }
+}
+
 /// Which transport a freshly established operational session should run over.
 #[derive(Debug, Clone, Copy, PartialEq, Eq, Default)]
 #[cfg_attr(feature = "defmt", derive(defmt::Format))]
